@@ -4,7 +4,7 @@
    by the regenerated shape table and the matrix only. *)
 From Coq Require Import List String Bool Arith.
 Import ListNotations.
-From Pedal Require Import model.C16_Proxy gen.C16_Gen proof.C16_Lemmas.
+From Pedal Require Import model.C16_Proxy gen.C16_Gen proof.C16_Lemmas proof.C16_Refuted.
 Open Scope string_scope.
 
 (* the dunder table regenerated from result.py: every binary operator has a forward method  clone(value OP unwrap(other))
@@ -30,3 +30,12 @@ Theorem C16_never_not_implemented :
   forall val ty nb sq o v (x : xval val), binop val ty nb sq gen_dunders o (Proxy v) x <> RNotImpl.
 Proof. exact never_not_implemented. Qed.
 Print Assumptions C16_never_not_implemented.
+
+(* the hypothesis of C16_transparent_right cannot be dropped: witness = a slot that accepts a proxy as data without asking for
+   its value, as str.__mod__ does ('ab' % proxy(7) gives 'ab', 'ab' % 7 raises) - the recorded finding *)
+Theorem C16_transparent_right_without_declining_slots_refuted :
+  exists (nb : nat -> bop -> option (xval bool -> xval bool -> res bool)) x w,
+    binop bool (fun _ => 0) nb (fun _ _ => None) gen_dunders Mod (Real x) (Proxy w)
+    <> wrap bool (binop_real bool (fun _ => 0) nb (fun _ _ => None) Mod x w).
+Proof. exact transparent_right_without_declining_slots_refuted. Qed.
+Print Assumptions C16_transparent_right_without_declining_slots_refuted.
